@@ -101,6 +101,16 @@ CLAIMS = {
         "functions) is labelled bounded and not counted as proved.",
    note="Trusted: pyvc executor, nanargmin contract, list-enumeration lemma A7, isclose formula; reals for floats. pLSCF_mpe's find_min branch has five open findings (known_findings.jsonl).",
    design="6 (C11)", technique="contract-based deductive verification: loop invariants over lockstep list appends (pyvc AST->VC, z3); bounded native stand-in for find_min only"),
+ "C15": dict(
+   text="Deductive proof of per-operation contracts executed from the real source: BaseAlgorithm._pre_run raises ValueError iff data, fs or run parameters are missing and changes nothing; "
+        "BaseSetup.run_by_name refuses unknown names (KeyError), refuses behind a closed gate, propagates run()'s exception, and in all three cases stores nothing; otherwise stores exactly "
+        "run()'s value in the named algorithm and touches nothing else (other algorithms, the shared data, the registry order); run_all is that, in registration order; BaseSetup.mpe dispatches "
+        "to the named algorithm with the caller's arguments; mpe and mpe_from_plot of FDD, EFDD/FSDD, SSIdat/SSIcov and pLSCF raise before storing anything when no run preceded; "
+        "MultiSetup_PoSER.__init__ accepts iff >= 2 setups, every setup has algorithms, class lists identical in order, one name per algorithm, every algorithm run and extracted - ValueError otherwise, "
+        "no other exception - and keeps setups, names and reference indices. Which inputs are missing, class identities, run/mpe states and name count are symbolic; setup and algorithm counts enumerated. "
+        "run() bodies of all seven classes pass a syntactic frame check (isolation). Persistence and bit-identical reruns are covered only by a bounded stand-in (labelled bounded).",
+   note="Trusted: pyvc executor, pydantic/dict behaviour, havoc contracts of run()/mpe at BaseSetup's call sites, A4 for the numerical kernels. Enumerated sizes: see assumptions.",
+   design="6 (C15)", technique="contract-based deductive verification: per-operation contracts with symbolic optional fields over enumerated container sizes (pyvc AST->VC, z3), syntactic frame checks, bounded native stand-in for pickle"),
 }
 NOT_APPLICABLE = {
  "C07": "accuracy tolerance (2.5 % / 15 %) of a floating-point FFT/peak-picking/regression pipeline: no contract over exact reals can state or discharge it (DESIGN.md section 8); its scale-invariance clause is covered under C08",
